@@ -1326,6 +1326,9 @@ class PGPMessage(Armorable, PGPObject):
         skesk.s2k.count = skesk.s2k.halg.tuned_count
 
         if sessionkey is None:
+            if self.is_encrypted:
+                # a key drawn now is the key of nothing: the new recipient can only be given the one that was used
+                raise PGPEncryptionError("This message is already encrypted: sessionkey= must be the key it was encrypted with")
             sessionkey = cipher_algo.gen_key()
         elif len(sessionkey) != cipher_algo.key_size // 8:
             # the backend takes several key lengths for one cipher class (8/16/24 for Triple-DES, 16/24/32 for AES,
@@ -2817,6 +2820,9 @@ class PGPKey(Armorable, ParentRef, PGPObject):
             warnings.warn("Selected compression algorithm not in key preferences", stacklevel=3)
 
         if sessionkey is None:
+            if message.is_encrypted:
+                # a key drawn now is the key of nothing: the new recipient can only be given the one that was used
+                raise PGPEncryptionError("The message is already encrypted: sessionkey= must be the key it was encrypted with")
             sessionkey = cipher_algo.gen_key()
         elif len(sessionkey) != cipher_algo.key_size // 8:
             # the recipient cuts the key out of the decrypted value by the key size of the algorithm octet
